@@ -31,66 +31,7 @@ def run(ctx):
     mir = load()
     idx = index()
 
-    # ------------------------------------------------------------------ R05.1
-    r = ctx.rule("R05.1", "activation is balanced: the handler vectors incremented (under with_content) when an element starts matching are exactly those decremented when it stops, each independently of the others; one-shot element/end-tag handlers are armed once and consumed", "E-AST + E-MIR", floor=6)
-    sm.clause_deactivate_counts(r, mir)
-    sm_f = idx.one("start_matching", owner="ContentHandlersDispatcher")
-    st_f = idx.one("stop_matching", owner="ContentHandlersDispatcher")
-    incs = calls_on_field(sm_f.node, "inc_user_count")
-    decs = calls_on_field(st_f.node, "dec_user_count")
-    def under_with_content(path):
-        return any(br == "then" and "with_content" in (i["cond"].get("s") or "") for i, br in enclosing_ifs(path))
-    inc_content = sorted(f for f, n, p in incs if under_with_content(p))
-    inc_always = sorted(f for f, n, p in incs if not under_with_content(p))
-    dec_fields = sorted(f for f, n, p in decs)
-    r.inst("balance", sample={"incremented_with_content": inc_content, "incremented_always": inc_always, "decremented": dec_fields})
-    if inc_content != dec_fields or not dec_fields:
-        r.violate("balance", f"start_matching activates {inc_content} for the content of a matched element but stop_matching deactivates {dec_fields}: a handler would stay active after its element closed (or be switched off too early)", "src/rewriter/handlers_dispatcher.rs")
-    for f, n, p in incs + decs:
-        which = "start_matching" if (f, n, p) in incs else "stop_matching"
-        key = f"{which}|{f}|independent"
-        r.inst(key)
-        ifs = enclosing_ifs(p)
-        in_else = [i for i, br in ifs if br == "else"]
-        if in_else:
-            r.violate(key, f"{which}: the update of {f} is in the `else` branch of another handler's check ({in_else[0]['cond'].get('s')}): when one selector carries both handlers only one of them is (de)activated", "src/rewriter/handlers_dispatcher.rs")
-        # the guard must be the presence of this handler's own locator
-        own = [i for i, br in ifs if br == "then" and i["cond"].get("k") == "Let"]
-        want = f.replace("_handlers", "_handler_idx")
-        if not any(want in (i["cond"]["e"].get("s") or "") for i in own):
-            r.violate(key + "|guard", f"{which}: the update of {f} is not guarded by its own locator ({want})", "src/rewriter/handlers_dispatcher.rs")
-    r.inst("element-handlers|armed-and-consumed")
-    if inc_always != ["element_handlers"]:
-        r.violate("element-handlers|armed-and-consumed", f"start_matching arms {inc_always} unconditionally, expected exactly the element handlers", "src/rewriter/handlers_dispatcher.rs")
-    hs = idx.one("handle_start_tag", owner="ContentHandlersDispatcher")
-    cons = [f for f, n, p in calls_on_field(hs.node, "do_for_each_active_and_deactivate")]
-    if cons != ["element_handlers"]:
-        r.violate("element-handlers|consumed", f"handle_start_tag consumes {cons} with do_for_each_active_and_deactivate, expected the element handlers (they would run again on the next start tag)", "src/rewriter/handlers_dispatcher.rs")
-    # end tag handlers: pushed inactive in handle_start_tag, armed in stop_matching, consumed+removed in handle_token
-    pushes = [(f, n) for f, n, p in calls_on_field(hs.node, "push")]
-    r.inst("end-tag-handlers|lifecycle")
-    ok = len(pushes) == 1 and pushes[0][0] == "end_tag_handlers" and (pushes[0][1]["args"][1].get("s") == "false")
-    arm = [f for f, n, p in calls_on_field(st_f.node, "inc_user_count")]
-    ht = idx.one("handle_token", owner="ContentHandlersDispatcher")
-    rem = [f for f, n, p in calls_on_field(ht.node, "do_for_each_active_and_remove_tail")]
-    if not ok or arm != ["end_tag_handlers"] or rem != ["end_tag_handlers"]:
-        r.violate("end-tag-handlers|lifecycle", f"end-tag handler lifecycle changed: pushed inactive in handle_start_tag={ok}, armed by stop_matching={arm}, consumed and removed at the end tag={rem}", "src/rewriter/handlers_dispatcher.rs")
-    # removed-content counter
-    plus = [(n, p) for n, p in walk_path(hs.node["body"]) if n.get("k") == "Binary" and n["op"] == "+=" and "matched_elements_with_removed_content" in (n["left"].get("s") or "")]
-    minus = [(n, p) for n, p in walk_path(st_f.node["body"]) if n.get("k") == "Binary" and n["op"] == "-=" and "matched_elements_with_removed_content" in (n["left"].get("s") or "")]
-    r.inst("removed-content|counter", sample={"increments": len(plus), "decrements": len(minus)})
-    okp = len(plus) == 1 and any("should_remove_content" in (i["cond"].get("s") or "") and br == "then" for i, br in enclosing_ifs(plus[0][1]))
-    okm = len(minus) == 1 and any("remove_content" in (i["cond"].get("s") or "") and br == "then" for i, br in enclosing_ifs(minus[0][1]))
-    sets = [n for n in walk(hs.node["body"]) if n.get("k") == "Assign" and "remove_content" in (n["left"].get("s") or "") and n["right"].get("s") == "true"]
-    if not okp or not okm or len(sets) != 1:
-        r.violate("removed-content|counter", "matched_elements_with_removed_content is no longer incremented exactly where elem_desc.remove_content is set and decremented exactly under that flag", "src/rewriter/handlers_dispatcher.rs")
-    # user_count arithmetic of HandlerVec: inc/dec touch both the item and the total
-    for nm in ("inc_user_count", "dec_user_count"):
-        f = idx.one(nm, owner="HandlerVec")
-        ops = sorted((n["left"].get("s") or "").replace(" ", "") for n in walk(f.node["body"]) if n.get("k") == "Binary" and n["op"] in ("+=", "-="))
-        r.inst("HandlerVec::" + nm, sample={"updates": ops})
-        if ops != ["item.user_count", "self.user_count"]:
-            r.violate("HandlerVec::" + nm, f"HandlerVec::{nm} updates {ops}; the per-item count and the total must move together (has_active decides which tokens are captured)", "src/rewriter/handlers_dispatcher.rs")
+    rule_activation_balance(ctx, idx, mir)
 
     rule_flag_table(ctx, idx, mir)
 
@@ -267,3 +208,65 @@ def rule_flag_table(ctx, idx, mir, rid="R05.2"):
         if not g or g[0] != flag or not any(c.endswith(ctor) or c == ctor for c in g[1]) or g[2] != removed:
             r.violate("to_token|" + k, f"to_token for a {k} lexeme: guard {g[0] if g else None}, constructs {g[1] if g else None}, clears {g[2] if g else None}; expected guard {flag}, {ctor}, clears {removed}", "src/rewritable_units/tokens/capturer/to_token.rs")
 
+
+def rule_activation_balance(ctx, idx, mir, rid="R05.1"):
+    # ------------------------------------------------------------------ R05.1
+    r = ctx.rule(rid, "activation is balanced: the handler vectors incremented (under with_content) when an element starts matching are exactly those decremented when it stops, each independently of the others; one-shot element/end-tag handlers are armed once and consumed", "E-AST + E-MIR", floor=6)
+    sm.clause_deactivate_counts(r, mir)
+    sm_f = idx.one("start_matching", owner="ContentHandlersDispatcher")
+    st_f = idx.one("stop_matching", owner="ContentHandlersDispatcher")
+    incs = calls_on_field(sm_f.node, "inc_user_count")
+    decs = calls_on_field(st_f.node, "dec_user_count")
+    def under_with_content(path):
+        return any(br == "then" and "with_content" in (i["cond"].get("s") or "") for i, br in enclosing_ifs(path))
+    inc_content = sorted(f for f, n, p in incs if under_with_content(p))
+    inc_always = sorted(f for f, n, p in incs if not under_with_content(p))
+    dec_fields = sorted(f for f, n, p in decs)
+    r.inst("balance", sample={"incremented_with_content": inc_content, "incremented_always": inc_always, "decremented": dec_fields})
+    if inc_content != dec_fields or not dec_fields:
+        r.violate("balance", f"start_matching activates {inc_content} for the content of a matched element but stop_matching deactivates {dec_fields}: a handler would stay active after its element closed (or be switched off too early)", "src/rewriter/handlers_dispatcher.rs")
+    for f, n, p in incs + decs:
+        which = "start_matching" if (f, n, p) in incs else "stop_matching"
+        key = f"{which}|{f}|independent"
+        r.inst(key)
+        ifs = enclosing_ifs(p)
+        in_else = [i for i, br in ifs if br == "else"]
+        if in_else:
+            r.violate(key, f"{which}: the update of {f} is in the `else` branch of another handler's check ({in_else[0]['cond'].get('s')}): when one selector carries both handlers only one of them is (de)activated", "src/rewriter/handlers_dispatcher.rs")
+        # the guard must be the presence of this handler's own locator
+        own = [i for i, br in ifs if br == "then" and i["cond"].get("k") == "Let"]
+        want = f.replace("_handlers", "_handler_idx")
+        if not any(want in (i["cond"]["e"].get("s") or "") for i in own):
+            r.violate(key + "|guard", f"{which}: the update of {f} is not guarded by its own locator ({want})", "src/rewriter/handlers_dispatcher.rs")
+    r.inst("element-handlers|armed-and-consumed")
+    if inc_always != ["element_handlers"]:
+        r.violate("element-handlers|armed-and-consumed", f"start_matching arms {inc_always} unconditionally, expected exactly the element handlers", "src/rewriter/handlers_dispatcher.rs")
+    hs = idx.one("handle_start_tag", owner="ContentHandlersDispatcher")
+    cons = [f for f, n, p in calls_on_field(hs.node, "do_for_each_active_and_deactivate")]
+    if cons != ["element_handlers"]:
+        r.violate("element-handlers|consumed", f"handle_start_tag consumes {cons} with do_for_each_active_and_deactivate, expected the element handlers (they would run again on the next start tag)", "src/rewriter/handlers_dispatcher.rs")
+    # end tag handlers: pushed inactive in handle_start_tag, armed in stop_matching, consumed+removed in handle_token
+    pushes = [(f, n) for f, n, p in calls_on_field(hs.node, "push")]
+    r.inst("end-tag-handlers|lifecycle")
+    ok = len(pushes) == 1 and pushes[0][0] == "end_tag_handlers" and (pushes[0][1]["args"][1].get("s") == "false")
+    arm = [f for f, n, p in calls_on_field(st_f.node, "inc_user_count")]
+    ht = idx.one("handle_token", owner="ContentHandlersDispatcher")
+    rem = [f for f, n, p in calls_on_field(ht.node, "do_for_each_active_and_remove_tail")]
+    if not ok or arm != ["end_tag_handlers"] or rem != ["end_tag_handlers"]:
+        r.violate("end-tag-handlers|lifecycle", f"end-tag handler lifecycle changed: pushed inactive in handle_start_tag={ok}, armed by stop_matching={arm}, consumed and removed at the end tag={rem}", "src/rewriter/handlers_dispatcher.rs")
+    # removed-content counter
+    plus = [(n, p) for n, p in walk_path(hs.node["body"]) if n.get("k") == "Binary" and n["op"] == "+=" and "matched_elements_with_removed_content" in (n["left"].get("s") or "")]
+    minus = [(n, p) for n, p in walk_path(st_f.node["body"]) if n.get("k") == "Binary" and n["op"] == "-=" and "matched_elements_with_removed_content" in (n["left"].get("s") or "")]
+    r.inst("removed-content|counter", sample={"increments": len(plus), "decrements": len(minus)})
+    okp = len(plus) == 1 and any("should_remove_content" in (i["cond"].get("s") or "") and br == "then" for i, br in enclosing_ifs(plus[0][1]))
+    okm = len(minus) == 1 and any("remove_content" in (i["cond"].get("s") or "") and br == "then" for i, br in enclosing_ifs(minus[0][1]))
+    sets = [n for n in walk(hs.node["body"]) if n.get("k") == "Assign" and "remove_content" in (n["left"].get("s") or "") and n["right"].get("s") == "true"]
+    if not okp or not okm or len(sets) != 1:
+        r.violate("removed-content|counter", "matched_elements_with_removed_content is no longer incremented exactly where elem_desc.remove_content is set and decremented exactly under that flag", "src/rewriter/handlers_dispatcher.rs")
+    # user_count arithmetic of HandlerVec: inc/dec touch both the item and the total
+    for nm in ("inc_user_count", "dec_user_count"):
+        f = idx.one(nm, owner="HandlerVec")
+        ops = sorted((n["left"].get("s") or "").replace(" ", "") for n in walk(f.node["body"]) if n.get("k") == "Binary" and n["op"] in ("+=", "-="))
+        r.inst("HandlerVec::" + nm, sample={"updates": ops})
+        if ops != ["item.user_count", "self.user_count"]:
+            r.violate("HandlerVec::" + nm, f"HandlerVec::{nm} updates {ops}; the per-item count and the total must move together (has_active decides which tokens are captured)", "src/rewriter/handlers_dispatcher.rs")
